@@ -26,7 +26,8 @@ LEVEL_TEXT = ('The deleted-atom closure (`_get_deleted`) is proved exact against
               'every match and every set-iteration order, and the frame / named-atom / fresh-number clauses are proved for the '
               'executable model of `_patcher`; `Graph.union` is proved to give disjoint isomorphic copies with the code\'s exact renumbering, and the '
               'exhaustive-mode queue (`one_shot=False`: FIFO, `seen` strings, `polymerise_limit`) is proved to terminate and to report '
-              'exactly the reachable reactions up to the de-duplication key, each key once, over an abstract step system; the model is a hand transcription tied to the code by differential testing on '
+              'exactly the reachable reactions up to the de-duplication key, each key once, over an abstract step system; `contract_ions` (salt '
+              'formation) is proved total, a partition of the input molecules, neutral-preserving and charge-neutral; the model is a hand transcription tied to the code by differential testing on '
               'corpus x built-in and synthetic templates, and the remaining clauses (valence validity, one product per match, '
               'numbering / order independence, kept / overridden stereo, exhaustive mode, aromaticity repair) are validated on the real outputs by a property-level oracle. '
               'Translation validation is the honest level: the matcher, kekule/thiele and the stereo translation are not in the model.')
@@ -51,12 +52,12 @@ ASSUMPTIONS = ['molecule adjacency is symmetric and closed (Graph invariant; hyp
                'stereo labels / coordinates are not compared; `fix_aromatic_rings=False` for the exact stream',
                'template atom numbers of different reactant patterns are distinct (reduce(or_, patterns) would renumber them)']
 HAS_DRIVER = True
-EXTRA_MODULES = ['Model.C16Patcher', 'Model.C16Worklist', 'Spec.C16Deleted']
+EXTRA_MODULES = ['Model.C16Patcher', 'Model.C16Worklist', 'Model.C16Ions', 'Spec.C16Deleted']
 FINDINGS_MODULE = 'ChythonModel.Findings.C16'
 
 PROGRAMS = ['Transformer.__call__', 'BaseReactor.__init__ (_to_delete, replacement checks)', 'BaseReactor._get_deleted',
             'BaseReactor._patcher', 'Reactor._single_stage', 'Reactor.__call__ (one-shot; exhaustive queue / seen / polymerise_limit)',
-            'fix_mapping_overlap', 'Graph.remap', 'Graph.union (remap=True and remap=False)', 'reactor.deprotection.*', 'reactor.reactions.*']
+            'fix_mapping_overlap', 'Graph.remap', 'Graph.union (remap=True and remap=False)', 'ReactionContainer.contract_ions', 'reactor.deprotection.*', 'reactor.reactions.*']
 
 
 def generate(ctx):
@@ -942,6 +943,116 @@ def step_system(R, mols, limit, cap_items=400):
         if len(items) > cap_items:
             return None
     return init, rows, keyid
+
+
+ION_POOL = ['[Na+]', '[K+]', '[Cl-]', '[Br-]', '[Ca+2]', '[Mg+2]', 'CC(=O)[O-]', 'C[NH3+]', '[O-]S(=O)(=O)[O-]', '[NH4+]', '[OH-]', '[Al+3]',
+            'O', 'CCO', '[O-]C(=O)CC(=O)[O-]', 'C[N+](C)(C)C', '[NH3+]CC(=O)[O-]', '[Cl-]', '[Na+]', '[O-]P(=O)([O-])[O-]']
+
+
+def add_ions_cases(cases, ctx):
+    """K `ions`: the real `ReactionContainer.contract_ions()` (reactants and products side, incl. the ordering of product ions
+    by their position among the reactants') vs the model `contractSide` / `contractProducts`. Molecules carry disjoint
+    numbers, so the molecules united into a salt, and the union order, are read off the salt's atom dict."""
+    from chython import smiles, ReactionContainer
+    rng = ctx.rng
+    pool = [smiles(x) for x in ION_POOL]
+    for case in range(60 if ctx.quick else 600):
+        nxt = [1]
+
+        def fresh(m):
+            m = m.copy()
+            m.remap({n: nxt[0] + i for i, n in enumerate(list(m))})
+            nxt[0] += len(m)
+            return m
+        reactants = [fresh(rng.choice(pool)) for _ in range(rng.choice([0, 1, 2, 2, 3, 3, 4, 5, 6]))]
+        if rng.random() < 0.5:
+            # products: the reactants' molecules again (same numbers) in another order, some dropped, some new
+            products = [m.copy() for m in reactants if rng.random() < 0.8]
+            rng.shuffle(products)
+            products += [fresh(rng.choice(pool)) for _ in range(rng.choice([0, 0, 1, 2]))]
+        else:
+            products = [fresh(rng.choice(pool)) for _ in range(rng.choice([0, 1, 2, 3, 4, 5]))]
+        if not reactants and not products:     # an empty ReactionContainer cannot be built
+            reactants = [fresh(rng.choice(pool))]
+        clsid = {}
+        sides = []
+        for side in (reactants, products):
+            ions, owner = [], {}
+            for i, m in enumerate(side, 1):
+                ions.append((i, clsid.setdefault(m, len(clsid) + 1), int(m), frozenset(m)))
+                for n in m:
+                    owner[n] = i
+            sides.append((ions, owner))
+        try:
+            r = ReactionContainer([m.copy() for m in reactants], [m.copy() for m in products])
+            r.contract_ions()
+            got = []
+            for (ions, owner), mols in zip(sides, (r.reactants, r.products)):
+                groups = []
+                for m in mols:
+                    g = []
+                    for n in m:
+                        if owner[n] not in g:
+                            g.append(owner[n])
+                    groups.append(' '.join(map(str, g)))
+                got.append('ok ' + ' ; '.join(groups))
+        except Exception as e:
+            got = [err_text(e), err_text(e)]
+        # keys of the product ions: position of the same atom set among the reactants' anions / cations, when the reactants'
+        # side was contracted (`anions_order` / `cations_order` of `contract_ions`), else -1
+        rions = sides[0][0]
+        contracted = len(r.reactants) != len(reactants) if not got[0].startswith('err') else False
+        an_order = {fs: k for k, (_, _, c, fs) in enumerate(x for x in rions if x[2] < 0)} if contracted else {}
+        ct_order = {fs: k for k, (_, _, c, fs) in enumerate(x for x in rions if x[2] > 0)} if contracted else {}
+        for mode, (ions, _), exp in ((0, sides[0], got[0]), (1, sides[1], got[1])):
+            req = [mode, len(ions)]
+            for i, cls, c, fs in ions:
+                req += [i, cls, c, an_order.get(fs, -1) if mode else -1, ct_order.get(fs, -1) if mode else -1]
+            ctx.dist('ions:' + ('contracted' if exp.startswith('ok') and exp.count(';') + 1 < len(ions) else
+                                'unchanged' if exp.startswith('ok') else exp))
+            cases.add('ions', f'case {case} side {mode}', 'ions ' + ' '.join(map(str, req)), exp,
+                      nontrivial=any(c for _, _, c, _ in ions))
+
+
+def add_oneshot_case(cases, name, patterns, products, kw, mols, tag):
+    """K `oneshot`: the sequence of `str(r)` the real one-shot `Reactor.__call__` yields vs the model's `oneShot` over the
+    reactions recorded per choice of reactants (real `_single_stage`, `ReactionContainer`, `contract_ions`, `str`)"""
+    from chython import Reactor, ReactionContainer
+    from chython.reactor.reactor import fix_mapping_overlap
+    from itertools import permutations
+    ctx = cases.ctx
+    kw2 = {k: v for k, v in dict(kw).items() if k in ('delete_atoms', 'automorphism_filter')}
+    try:
+        R = Reactor(patterns, products, one_shot=True, fix_aromatic_rings=False, **kw2)
+        real = [str(r) for r in itertools.islice(R(*[m.copy() for m in mols]), 400)]
+        structures = fix_mapping_overlap([m.copy() for m in mols])
+        n, k = len(structures), len(patterns)
+        rows, keyid, rid = [], {}, 0
+        for i, ch in enumerate(permutations(range(n), k)):
+            chosen = [structures[x] for x in ch]
+            ignored = [structures[x] for x in range(n) if x not in ch]
+            row = []
+            for new in R._single_stage(chosen, {x for m in ignored for x in m}):
+                r = ReactionContainer([x.copy() for x in chosen] + [x.copy() for x in ignored], new + [x.copy() for x in ignored])
+                if len(new) > 1:
+                    r.contract_ions()
+                rid += 1
+                row.append((rid, keyid.setdefault(str(r), len(keyid) + 1)))
+            rows.append((i, row))
+    except Exception as e:
+        ctx.dist('oneshot-raises:' + type(e).__name__)
+        return
+    if len(real) >= 400:
+        return
+    req = [len(rows)] + [i for i, _ in rows] + [len(rows)]
+    for i, row in rows:
+        req += [i, len(row)]
+        for rid, key in row:
+            req += [rid, key, 0, 0]
+    ks = ' '.join(str(keyid.get(s_, 900000 + j)) for j, s_ in enumerate(real))
+    ctx.dist('oneshot-deduplicated', sum(len(r) for _, r in rows) > len(real))
+    cases.add('oneshot', f'{name} on {tag}', 'oneshot ' + ' '.join(map(str, req)), norm(f'ok {ks}'), nontrivial=len(real) > 0,
+              replay=reactor_replay(name, patterns, products, kw2, mols))
 
 
 def add_worklist_case(cases, name, patterns, products, kw, mols, limit, tag):
@@ -1860,7 +1971,7 @@ def correspond(ctx):
             for vtag, vm in ((tag, mol), (tag + '~renum', molgen.renumber(rng, mol)[0])):
                 if add_transformer_cases(cases, 'synthetic.' + name, q, r, vm, vtag, kw, limit=4, qs=qs, rs=rs):
                     ahit += 1
-                    for fr in (False, True):
+                    for fr in ((False, True) if vm is mol or not ctx.quick else (False,)):
                         for cl, det in clauses(q, r, vm, kw, fix_rings=fr, limit=4):
                             ctx.fail(f'C16/{cl}', f'{name} on {vtag} (fix_rings={fr}): {det}', replay_input(name, q, r, kw, vm, fr))
     ctx.dist('attr-template-hits', ahit)
@@ -1954,6 +2065,7 @@ def correspond(ctx):
     # K: Graph.union(remap=True/False) and the exhaustive-mode worklist
     upool = [(t, m) for t, m in mols if 0 < len(m) <= 14][:80] + [(b, m) for b, m in blocks() if len(m) <= 12]
     add_union_cases(cases, ctx, upool)
+    add_ions_cases(cases, ctx)
     for name, ps, rs, msets, limits in WORKLIST_CASES:
         try:
             pats, prods = [_sm(p) for p in ps], [parse_repl(x) for x in rs]
@@ -1961,6 +2073,7 @@ def correspond(ctx):
             ctx.broke('correspondence', 'synthetic-template-parse', f'{name}: {type(e).__name__}: {e}')
             continue
         for mset in msets:
+            add_oneshot_case(cases, 'worklist.' + name, pats, prods, {}, [smiles(x) for x in mset], '+'.join(mset))
             for lim in (limits if not ctx.quick else limits[-2:]):
                 add_worklist_case(cases, 'worklist.' + name, pats, prods, {}, [smiles(x) for x in mset], lim, '+'.join(mset))
     for name, pats, prods, kw, builtin in rxs:
@@ -1968,6 +2081,8 @@ def correspond(ctx):
         for tag, ms in sets[:1] if ctx.quick else sets[:3]:
             if sum(len(m) for m in ms) <= 36:
                 add_worklist_case(cases, name, pats, prods, kw, ms, 2, tag)
+        for tag, ms in sets[:1] if ctx.quick else sets:
+            add_oneshot_case(cases, name, pats, prods, kw, ms, tag)
 
     # single-pattern templates as exhaustive Reactors on SEVERAL matching molecules (each synthetic Transformer template is one)
     single = [('synthetic.' + n, [q], [r], kw) for n, q, r, kw in synth if kw.get('delete_atoms', True) is True]
